@@ -84,7 +84,7 @@ for fn, nm in ((1, 'timingsafe_bcmp'), (2, 'timingsafe_memcmp')):
 
 J('A.bsearch_s', ['C16', 'C02', 'C05', 'C01'], 'A', 'contracts/misc/bsearch_s.spec.c',
   sources=['src/misc/bsearch_s.c'], overlays={'src/misc/bsearch_s.c': 'contracts/misc/bsearch_s.loops'},
-  enforce='_bsearch_s_chk', functions=['_bsearch_s_chk'], sliced=False, timeout=600, tiers=('dev',), fallback='B.bsearch_s.sz4',
+  enforce='_bsearch_s_chk', functions=['_bsearch_s_chk'], sliced=False, timeout=600, fallback='B.bsearch_s.sz4',
   note='every nmemb, 4-byte elements, no assumption on the order of the array: comparator arguments in range, a returned pointer is a matching element, termination')
 
 # ---- engine B: copy / concatenate family against the reference model in harness/copyfam.c
